@@ -44,6 +44,8 @@ pub struct State {
     /// a W^X policy: requests for memory that is writable and executable at once are refused with
     /// EACCES; everything else is served
     pub deny_wx: bool,
+    /// when set: this many further `mprotect` calls are served, every later one is refused
+    pub mprotect_budget: Option<usize>,
 }
 
 pub static STATE: Mutex<State> = Mutex::new(State {
@@ -55,6 +57,7 @@ pub static STATE: Mutex<State> = Mutex::new(State {
     mprotect_fail: 0,
     snap_flush: true,
     deny_wx: false,
+    mprotect_budget: None,
 });
 
 fn st() -> std::sync::MutexGuard<'static, State> {
@@ -87,6 +90,10 @@ pub fn script_left() -> usize {
 pub fn owned() -> Vec<(usize, usize)> {
     st().owned.clone()
 }
+pub fn mprotect_budget(n: Option<usize>) {
+    st().mprotect_budget = n;
+}
+
 pub fn deny_wx(on: bool) {
     st().deny_wx = on;
 }
@@ -145,6 +152,11 @@ pub unsafe fn mprotect(addr: *mut c_void, len: size_t, prot: c_int) -> c_int {
         let mut s = st();
         if s.mprotect_fail > 0 {
             s.mprotect_fail -= 1;
+            true
+        } else if s.mprotect_budget == Some(0) {
+            *real_libc::__errno_location() = real_libc::ENOMEM;
+            true
+        } else if s.mprotect_budget.is_some() && { s.mprotect_budget = s.mprotect_budget.map(|b| b - 1); false } {
             true
         } else if s.deny_wx && (prot & real_libc::PROT_WRITE) != 0 && (prot & real_libc::PROT_EXEC) != 0 {
             *real_libc::__errno_location() = real_libc::EACCES;
